@@ -1,5 +1,7 @@
 #!/bin/bash
-# Regenerates _CoqProject from the .v files known to git (git add new files first) and the Makefile.
+# Regenerates _CoqProject from the .v files known to git (git add new files first) minus those listed in coq/wip.txt
+# (work in progress that must not be built by `make` yet), and regenerates the Makefile.
 cd "$(dirname "$0")"
-(echo "-Q theories HIDI"; echo "-arg -w -arg -notation-overridden,-deprecated-hint-without-locality,-deprecated-instance-without-locality"; git ls-files theories | grep '\.v$' | sort) > _CoqProject
+touch wip.txt
+(echo "-Q theories HIDI"; echo "-arg -w -arg -notation-overridden,-deprecated-hint-without-locality,-deprecated-instance-without-locality"; git ls-files theories | grep '\.v$' | grep -v -x -F -f wip.txt | sort) > _CoqProject
 coq_makefile -f _CoqProject -o Makefile >/dev/null
